@@ -275,6 +275,17 @@ func c10Corpus(answer bool) []pcCase {
 			// RTX whose apt names an RTX that has no primary
 			{Video: []cdc{vp8, {Mime: "video/rtx", Clock: 90000, Line: "apt=99", PT: 97}, {Mime: "video/rtx", Clock: 90000, Line: "apt=97", PT: 100}}, Multi: true,
 				Locals: []pcTrans{{Kind: 2, Dir: 1}}},
+			// more header extensions for one kind than there are one-byte ids: the ones
+			// beyond the 14th are left out
+			{Video: []cdc{vp8}, Multi: true,
+				Exts: func() []pcExtReg {
+					var l []pcExtReg
+					for i := 0; i < 17; i++ {
+						l = append(l, pcExtReg{URI: fmt.Sprintf("urn:x:ext:%d", i), Kind: 2})
+					}
+					return l
+				}(),
+				Locals: []pcTrans{{Kind: 2, Dir: 1}}},
 			// local id assignment: three extensions, both kinds
 			{Video: []cdc{vp8}, Audio: []cdc{{Mime: "audio/opus", Clock: 48000, Ch: 2, PT: 111}}, Multi: true,
 				Exts:   []pcExtReg{{URI: mid, Kind: 2}, {URI: mid, Kind: 1}, {URI: "urn:x:a", Kind: 2, Dirs: []int{1}}, {URI: "urn:x:b", Kind: 1}},
